@@ -18,11 +18,13 @@ PROBE = 25_000
 def base(dll, kind, npk, win, seed):
     unit = 7 if dll == 'j1939-21' else 60
     size = unit * npk - (seed % (unit - 1))          # npk packets, last one partial (or full when seed % .. == 0)
-    sa, da = 0x10, (255 if kind == 'bam' else 0x20)
+    # address 0 is an address like any other: it takes its turn on either side
+    sa, db = [(0x10, 0x20), (0x00, 0x20), (0x10, 0x00), (0xF9, 0xFD)][(seed // 2) % 4]
+    da = 255 if kind == 'bam' else db
     maxa = 255 if win == 'all' else win
     maxb = 255 if win == 'all' else win
     stacks = [dict(dll=dll, max_cmdt=maxa, subs=[dict(cid=1, filt=sa)], cas=[]),
-              dict(dll=dll, max_cmdt=maxb, subs=[dict(cid=2, filt=0x20)], cas=[])]
+              dict(dll=dll, max_cmdt=maxb, subs=[dict(cid=2, filt=db)], cas=[])]
     pf, ps = (0xFE, 0xCA) if kind == 'bam' and seed % 2 else (0xD0, da)
     tf = T_FOLLOW[dll] + (npk * 60000 if kind == 'bam' else 0)
     script = [dict(t=1000, s=0, op='send', a=[0, pf, ps, 6, sa, dict(seed=seed, len=size)]),
@@ -101,6 +103,14 @@ def oracle(sc, res):
         if not acked and sc['faults'] and not eoms_sent:
             if not any(abort_reason(e, dll) == 3 for e in aborts):
                 v.append(dict(kind='no-timeout-abort-sent', faults=sc['faults'], delivered=bool(first)))
+        # the side that is left waiting says so: when one stack falls silent for good, the abort must come from the OTHER one
+        for f in sc['faults']:
+            if 'silent' in f and not acked:
+                quiet, kf = f['silent']
+                other = 1 - quiet
+                if (other == 0 and not eoms_sent) or (other == 1 and kf >= 2 and not first):
+                    if not any(e[1] == other and abort_reason(e, dll) == 3 for e in aborts):
+                        v.append(dict(kind='no-timeout-abort-from-the-side-left-waiting', side=other, faults=sc['faults']))
         for e in aborts:
             if abort_reason(e, dll) not in (1, 2, 3):
                 v.append(dict(kind='abort-reason', reason=abort_reason(e, dll)))
